@@ -30,6 +30,26 @@ var commonAssumptions = []string{
 func allChecks() []CheckSpec {
 	return []CheckSpec{
 		{
+			ID: "C14",
+			Harnesses: []HarnessSpec{
+				{Fn: "verifC14Read", Lemma: "one readStreamingPacket call on an arbitrary byte stream: returns exactly be16(header) body bytes, consumes 2+length, never requests bytes beyond the frame, ErrShortBuffer without reading the body when the frame exceeds cap(buf), every read error/EOF/truncation yields an error and no packet, no panic",
+					Bounds: "all streams of 0..7 bytes (quick) / 0..9 (thorough) with arbitrary content incl. the header, every partition into read chunks, buffer cap 0..5 / 0..7 and len<=cap, an injected read error at any read index", MustReach: []string{"packet-read", "short-buffer", "error", "injected-error-hit", "done"}},
+				{Fn: "verifC14Write", Lemma: "writeStreamingPacket: exactly one Write, header = be16(len), body identical, returns len; a write error propagates",
+					Bounds: "payload length 0..4 (quick) / 0..6 (thorough), arbitrary bytes", MustReach: []string{"write-error", "done"}},
+				{Fn: "verifC14WriteLarge", Lemma: "lengths at the 16-bit boundary: <= 65535 framed correctly, > 65535 refused and never framed with a wrapped header",
+					Bounds: "lengths {255,256,8192,65535,65536,65537,70000,131072} (case split), first/last byte symbolic", MustReach: []string{"fits", "too-long", "done"}},
+				{Fn: "verifC14RoundTrip", Lemma: "k packets through the real writer then the real reader under every chunking: same sequence and contents, then EOF",
+					Bounds: "k <= 2 packets of 0..2 (quick) / 0..3 (thorough) bytes, every chunking", MustReach: []string{"done"}},
+				{Fn: "verifC14StartReading", Lemma: "tcpPacketConn.startReading + readFromContext: frames become packets in order with the peer address; a truncated tail ends in an error packet; the stream is closed and removed",
+					Bounds: "0..2 frames of 0..2 bytes, three tail shapes (none, half header, truncated body), every chunking", MustReach: []string{"done"}},
+			},
+			Assumptions: append([]string{
+				"net.Conn.Read contract: returns 1..len(p) bytes, or an error; never (0,nil) for a non-empty buffer",
+				"fake conn delivers exactly the bytes of the symbolic stream (TCP is reliable and ordered)",
+			}, commonAssumptions...),
+			Outside: "lengths beyond the listed case splits (length arithmetic is concrete per path, not symbolic); activeTCPConn goroutines; OS-level TCP; concurrent readers",
+		},
+		{
 			ID: "C17",
 			Harnesses: []HarnessSpec{
 				{Fn: "verifC17CandidatePriority", Lemma: "candidate priority = 2^24*tp + 2^8*lp + (256-component) with tp/lp from independent RFC tables; tp in 0..126; priority in 1..2^31-1",
